@@ -49,6 +49,11 @@ class C18(Prop):
                 out.append(Case("run", f, stream + "-" + mode, note=src))
         for s in BOUNDARY:
             add(s, "boundary")
+        # hash literals in which a key is written more than once (the operand count of OpHash and the pairs pushed must agree)
+        for s in ['h = {"a": 1, "a": 2}; return len(h);', 'h = {name: 1, "b": 2, name: 3}; return h;', 'return [10, 20, {"k": 1, "k": 2}];', '1; 2; h = {"k": 1, "k": 2}; return len(h);',
+                  'function f() { return {"x": 1, "y": 2, "x": 3, "x": 4}; } return f();', 'if (true) { h = {1: "a", 1: "b", "1": "c"}; } return h;', 'return {1.5: 1, 1.5: 2, 1.50: 3};',
+                  'foreach k, v in {"a": 1, "a": 2, "b": 3} { t(k, v); } return 1;', 'return len({"a": {"i": 1, "i": 2}, "a": 5});']:
+            add(s, "repeated-keys")
         for s in VALUELESS:
             # a construct that leaves no value, used where a value is needed: Prepare must refuse it
             for mode in ("opt", "noopt"):
